@@ -26,6 +26,52 @@ func num(r *Rng) []byte {
 	return vmlib.Item(r)
 }
 
+// numOperand: an operand for the numeric opcodes, mostly valid (< 2^255), concentrated on
+// the boundaries where sums / products / shifts cross 2^63, 2^64, 2^255, 2^256.
+func numOperand(r *Rng) []byte {
+	pow := func(k uint, d int64) []byte {
+		n := new(big.Int).Lsh(big.NewInt(1), k)
+		n.Add(n, big.NewInt(d))
+		return encodeNum(n)
+	}
+	switch r.Intn(12) {
+	case 0:
+		return []byte{}
+	case 1:
+		return vm.Uint64Bytes(uint64(r.Intn(4)))
+	case 2:
+		return vm.Uint64Bytes(uint64(r.Intn(300)))
+	case 3:
+		ks := []uint{8, 63, 64, 127, 128, 192, 253, 254}
+		return pow(ks[r.Intn(len(ks))], int64(r.Intn(3))-1)
+	case 4, 5:
+		return pow(255, -1-int64(r.Intn(3))) // 2^255-1, -2, -3
+	case 6:
+		return pow(254, int64(r.Intn(3))-1)
+	case 7:
+		b := r.Bytes(32) // random, valid
+		b[31] &= 0x7f
+		return b
+	case 8:
+		b := r.Bytes(1 + r.Intn(31))
+		return b
+	case 9:
+		return append(vm.Uint64Bytes(uint64(r.Intn(300))), make([]byte, r.Intn(4))...) // non-minimal
+	case 10:
+		return vm.Uint64Bytes(r.Next() >> uint(r.Intn(64)))
+	default:
+		return vmlib.Item(r) // includes invalid: 2^255, 2^256-1, 33 bytes
+	}
+}
+
+func shiftAmount(r *Rng) []byte {
+	ks := []uint64{0, 1, 7, 8, 63, 64, 127, 128, 200, 253, 254, 255, 256, 257, 511, 1 << 32, 1 << 63}
+	if r.Chance(20) {
+		return numOperand(r)
+	}
+	return vm.Uint64Bytes(ks[r.Intn(len(ks))])
+}
+
 var predicates = [][]byte{
 	{}, {0x51}, {0x00}, {0x51, 0x51, 0x93}, {0x75, 0x51}, {0x6a}, {0x76, 0x76, 0x76, 0x76},
 	{0x51, 0x63, 0x00, 0x00, 0x00, 0x00}, // loop until gas runs out
@@ -131,6 +177,19 @@ func stackFor(op byte, r *Rng) [][]byte {
 		}
 		st = append(st, vm.Uint64Bytes(uint64(r.Intn(k+2))), predicates[r.Intn(len(predicates))], vm.Uint64Bytes(lim))
 	default:
+		if _, _, ar, isNum := numericExpect(op, nil); isNum && r.Chance(85) {
+			for i := 0; i < ar; i++ {
+				if (op == 0x98 || op == 0x99) && i == ar-1 {
+					st = append(st, shiftAmount(r))
+				} else {
+					st = append(st, numOperand(r))
+				}
+			}
+			if r.Chance(5) && len(st) > 0 {
+				st = st[1:] // one operand short
+			}
+			return st
+		}
 		k := 1 + r.Intn(3)
 		for i := 0; i < k; i++ {
 			st = append(st, num(r))
@@ -416,7 +475,7 @@ func progFor(op byte, r *Rng) []byte {
 }
 
 func run(c *Ctx) error {
-	per := c.N(8, 60)
+	per := c.N(8, 40)
 	for opi := 0; opi < 256; opi++ {
 		op := byte(opi)
 		n := per
@@ -483,7 +542,7 @@ func run(c *Ctx) error {
 	}
 	c.Stats.Count("model_evaluated")
 	c.Stats.Distribution["model_evaluated"] = c.Cases.Len()
-	c.Stats.Rule = "for every opcode byte 0x00..0xff: programs consisting of that instruction (well-formed and truncated immediates, occasionally followed by one consumer op) on op-shaped stacks (numeric operands from a boundary set incl. 0, 2^63, 2^64, 2^255-1, 2^255, 2^256-1, non-minimal and 33-byte encodings; splice bounds; real ed25519 keys/signatures with corruptions; CHECKPREDICATE children) and on random stacks of 0..8 items of 0..40 bytes; tx version 1 / other / absent; distinct = distinct (program, stack, state, gas, expansion flag); non-trivial = not merely stack underflow / out of gas / unsupported VM"
+	c.Stats.Rule = "for every opcode byte 0x00..0xff: programs consisting of that instruction (well-formed and truncated immediates, occasionally followed by one consumer op) on op-shaped stacks (numeric opcodes get extra cases with operands concentrated on 0, 1, 2^63, 2^64, 2^128, 2^254±1, 2^255-1..3, random 32-byte values, shift amounts around 0/255/256/2^63, plus invalid ones: 2^255, 2^256-1, 33-byte, non-minimal encodings; splice bounds; real ed25519 keys/signatures with corruptions; CHECKPREDICATE children) and on random stacks of 0..8 items of 0..40 bytes; tx version 1 / other / absent; distinct = distinct (program, stack, state, gas, expansion flag); non-trivial = not merely stack underflow / out of gas / unsupported VM"
 	c.Cases.Shard = 150
 	return c.Cases.Write(c.Out, vmlib.Header, "vmobs", "vmobs_eqb")
 }
